@@ -270,11 +270,13 @@ class MPIExec(LaunchMethod):
 
             tmp = list()
             for slot in slots:
-                cores = slot['cores']
-                if len(cores) > 1:
-                    tmp.append('%s-%s' % (cores[0]['index'], cores[-1]['index']))
+                cores = [core['index'] for core in slot['cores']]
+                if len(cores) > 1 and \
+                        cores == list(range(cores[0], cores[0] + len(cores))):
+                    # a range names every core between its ends
+                    tmp.append('%s-%s' % (cores[0], cores[-1]))
                 else:
-                    tmp.append(str(cores[0]['index']))
+                    tmp.append(','.join(str(core) for core in cores))
             core_ids = ':'.join(tmp)
 
           # # FIXME: make this readable please
